@@ -2120,6 +2120,10 @@ def serialize_tensor_into(
     if isinstance(from_, TensorProtoTensor):
         # Directly copy from the tensor proto if it is available
         tensor_proto.CopyFrom(from_.raw)
+        # The metadata of the IR tensor was initialized from the proto and is the source
+        # of truth: replace the copied entries instead of appending to them, otherwise
+        # every round trip duplicates the metadata
+        del tensor_proto.metadata_props[:]
         if from_.metadata_props:
             _serialize_metadata_props_into(tensor_proto.metadata_props, from_.metadata_props)
         return
